@@ -462,11 +462,16 @@ impl Range {
         let mut predicates = Vec::new();
 
         for lefty in &self.0 {
+            // Take every alternative of `other` away from what is left of `lefty`.
+            let mut remaining = vec![lefty.clone()];
             for righty in &other.0 {
-                if let Some(mut range) = lefty.difference(righty) {
-                    predicates.append(&mut range)
-                }
+                remaining = remaining
+                    .iter()
+                    .filter_map(|rest| rest.difference(righty))
+                    .flatten()
+                    .collect();
             }
+            predicates.append(&mut remaining);
         }
 
         if predicates.is_empty() {
